@@ -25,7 +25,7 @@ CFG = """SPECIFICATION {spec}
 CONSTANTS
   NetParams <- {params}
   MkNet <- NetOfParams
-  Questions <- TheQuestion
+  Questions <- TheQuestions
   NsLimit = {ns}
   RecLimit = {rec}
   MaxCname = {cn}
@@ -34,7 +34,7 @@ CONSTANTS
 CHECK_DEADLOCK FALSE
 """
 INVS = "INVARIANTS TypeOK C19_NoPoison C19_Filters C19_Terminates\nPROPERTY C19_Ends"
-PRIORITY = ["did-not-terminate", "too-many-upstream-queries", "address-from-out-of-bailiwick-record-contacted",
+PRIORITY = ["did-not-terminate", "too-many-upstream-queries", "alias-lookups-exceed-limit", "address-from-out-of-bailiwick-record-contacted",
             "unknown-address-contacted", "denied-address-contacted", "out-of-bailiwick-record-returned",
             "out-of-bailiwick-record-served-from-cache", "denied-address-returned", "denied-address-served-from-cache"]
 
@@ -101,9 +101,11 @@ def run(res, tier, seed):
     # ---- R (+ T on the same runs)
     params = "MC_All" if thorough else "MC_Gen"
     tla, _ = vlib.wrapper(wd, "G_rec", "Gen_Recursor, RecursorNets",
-                          {"MC_All": "HostileParams(LModes, MModes, TModes) \\cup FilterParams(LModes, MModes, TModes)",
+                          {"MC_All": "HostileParams(LModes, MModes, TModes) \\cup FilterParams(LModes, MModes, TModes) \\cup V6Params "
+                                     "\\cup TreeParams(TreeModes)",
                            "MC_Gen": 'HostileParams({"in", "sib", "sib-noglue", "out", "lame", "self"}, MModes, {"a", "cname-sib", "loop2", "loop3", "none"}) '
-                                     '\\cup FilterParams(LModes, {"in", "sib-noglue"}, {"a", "cname-in", "cname-out"})'}, [])
+                                     '\\cup FilterParams({"in", "sib", "out", "lame"}, {"in", "sib-noglue"}, {"a", "cname-in", "cname-out"}) '
+                                     '\\cup V6Params \\cup TreeParams(TreeModes)'}, [])
     cfg = write_cfg(wd, "G_rec", spec="Spec", params=params, ns=10, rec=8, cn=64, rule="required", tail="INVARIANT Emit")
     cases, st = vlib.gen(tla, cfg, wd, workers=W, timeout=2400)
     res.states += st["distinct"]
@@ -151,6 +153,32 @@ def run(res, tier, seed):
     res.extra["replay_outcomes"] = stats
     res.extra["generated_cases_replayed"] = n
 
+    # ---- the address filter itself: exhaustive (address x deny list x allow list) cases with the prescribed verdict,
+    # replayed against AccessControlSet::denied; its events join the monitored trace
+    acfg = os.path.join(wd, "G_acs.cfg")
+    with open(acfg, "w") as f:
+        f.write(f"SPECIFICATION Spec\nCONSTANTS\n  MaxDeny = {3 if thorough else 2}\n  MaxAllow = {2 if thorough else 1}\nINVARIANT Emit\nCHECK_DEADLOCK FALSE\n")
+    acases, ast = vlib.gen(os.path.join(vlib.SPEC, "Gen_Access.tla"), acfg, wd, workers=W, timeout=1500)
+    res.states += ast["distinct"]
+    res.transitions += ast["generated"]
+    apath = os.path.join(wd, "G_acs.cases.ndjson")
+    vlib.write_ndjson(apath, acases)
+    atrace = os.path.join(wd, "G_acs.trace.ndjson")
+    avp = os.path.join(wd, "G_acs.verdicts.ndjson")
+    vlib.run_driver("drive_recursor", ["acs", "--trace", atrace], stdin_path=apath, stdout_path=avp)
+    averd = list(vlib.read_ndjson(avp))
+    if len(averd) != len(acases) or not any(c["denied"] for c in acases) or not any(not c["denied"] and c["acs"]["deny"] for c in acases):
+        raise vlib.ToolError("address filter layer: cases lost or vacuous")
+    res.traces += len(averd)
+    res.evaluations += len(averd)
+    res.extra["address_filter_cases"] = len(averd)
+    for v in averd:
+        if v["observed"] is True:
+            res.nontrivial.add("f" + vlib.digest(v["input"]))
+        if not v["ok"]:
+            res.mismatch("address-filter-verdict-wrong", {"expected": v["expected"]}, v)
+    vlib.log(f"[c19] G_acs: {len(averd)} filter cases")
+
     # ---- T: seeded random internets
     n_rand = 20000 if thorough else 2500
     rpath = os.path.join(wd, "random.trace.ndjson")
@@ -168,7 +196,7 @@ def run(res, tier, seed):
     res.extra["stub_max_upstream_queries"] = max(v["asked"] for v in stub)
     all_trace = os.path.join(wd, "all.trace.ndjson")
     with open(all_trace, "w") as out:
-        for t in (tpath, rpath, spath):
+        for t in (tpath, rpath, spath, atrace):
             with open(t) as f:
                 for line in f:
                     out.write(line)
@@ -192,6 +220,8 @@ def run(res, tier, seed):
     # outcome leaves the prescribed sets is reported on its own
     flagged = set()
     for m in mism:
+        if m["event"].get("ev") == "acs":
+            continue            # reported through the replay verdict of the same case above
         flagged.add(m["case"])
         cls, fields = classify(m)
         res.mismatch(cls, fields, {"case": m["case"], "event": m["event"], "problems": m["problems"], "detail": m.get("detail"),
